@@ -8,6 +8,7 @@ import (
 
 	"github.com/hydraide/hydraide/app/core/hydra/swamp/beacon"
 	"github.com/hydraide/hydraide/app/core/hydra/swamp/chronicler"
+	v2 "github.com/hydraide/hydraide/app/core/hydra/swamp/chronicler/v2"
 	"github.com/hydraide/hydraide/app/core/hydra/swamp/treasure"
 	"github.com/hydraide/hydraide/app/core/hydra/swamp/treasure/guard"
 )
@@ -40,6 +41,27 @@ func newChron(dir string, cfg ChronCfg) chronicler.Chronicler {
 }
 
 func hydPath(dir string) string { return filepath.Join(dir, swampFileBase+".hyd") }
+
+// nameLost checks, for a swamp file written through the server construction (NewV2WithName), that the
+// fast name lookup the explorer uses still returns the swamp's name ("" = fine / not applicable). A
+// file that was recovered after a crash or an I/O fault and then written again is a file "written by
+// the engine" like any other: its records are back, so its name must be too.
+func nameLost(dir string, cfg ChronCfg) string {
+	if cfg.BlockSize != 0 || cfg.Name == "" {
+		return ""
+	}
+	if _, err := os.Stat(hydPath(dir)); err != nil {
+		return ""
+	}
+	nm, err := v2.ReadSwampName(hydPath(dir))
+	if err != nil {
+		return fmt.Sprintf("ReadSwampName fails with %v (the swamp is %q)", err, cfg.Name)
+	}
+	if nm != cfg.Name {
+		return fmt.Sprintf("ReadSwampName returns %q, the swamp that wrote the file is %q", nm, cfg.Name)
+	}
+	return ""
+}
 
 // versioned content: 8-byte version id followed by the payload, so that a
 // loaded value identifies the write it came from.
